@@ -474,6 +474,22 @@ func init() {
 	})
 }
 
+func init() {
+	// the same world judged for the clauses of C05 and C07 that speak about restarts
+	base := Registry["C01/crash"]
+	for _, x := range []struct {
+		prop, rule      string
+		quick, thorough int
+	}{
+		{"C05", "crash/restart part: the W-crash histories (SQLiteStore on the simulated disk, kill / power loss / disk faults at the k-th disk operation) judged for redelivery: after every restart each dequeue still returns min(batch, ready) with leases of the dead process expiring on the simulated clock, delays are not shortened, and after the last restart with faults off every unsettled message is offered again", 1500, 80000},
+		{"C07", "restart part: payload bytes and header maps of every message listed after a crash recovery equal what was enqueued (W-crash histories with explicit headers; model rule C02.immutable.*)", 1000, 50000},
+	} {
+		c := *base
+		c.Prop, c.Rule, c.Quick, c.Thorough = x.prop, x.rule, x.quick, x.thorough
+		Register(&c)
+	}
+}
+
 func hasCrashStep(p *Program) bool {
 	for _, s := range p.Steps {
 		if s.Op == "crash" {
